@@ -426,23 +426,23 @@ def monOp (op : String) (args : List String) : Option String :=
     -- C10 / C07: <the owner's latest weight grew> <number of OTHER accounts whose latest weight changed> after a top-up
     let (grew, ts) ← pBit args
     let (others, _) ← pNat ts
-    some (if grew && others == 0 then "ok" else "viol C10-weight-misattributed")
+    some (verdict (monTopupWeight grew others))
   | "mon_exit_weight" => do
     -- C10: <owner's latest weight before> <after> <total before> <after> of an accepted exit with a position that was open
     let (xs, _) ← pRepeat pNat 4 args
     match xs with
-    | [ub, ua, tb, ta] => some (if ua < ub && ta < tb then "ok" else "viol C10-weight-kept")
+    | [ub, ua, tb, ta] => some (verdict (monExitWeight ub ua tb ta))
     | _ => none
   | "mon_topup_backed" => do
     -- C08 / C05: <growth of a position's recorded amount> <growth of the farm manager's balance in that position's LP token>
     let (d, ts) ← pNat args
     let (got, _) ← pInt ts
-    some (if got == (d : Int) then "ok" else "viol C08-topup-unbacked,C05-custody")
+    some (verdict (monTopupBacked d got))
   | "mon_min_receive" => do
     -- C13: <minimum_receive of an EXECUTED route> <what it delivered>
     let (mr, ts) ← pNat args
     let (got, _) ← pNat ts
-    some (if mr ≤ got then "ok" else "viol C13-minimum-receive")
+    some (verdict (monMinReceive mr got))
   | "mon_hop_k" => do
     let (xs, _) ← pRepeat pNat 4 args
     match xs with
